@@ -373,6 +373,35 @@ func (m *cliIO) ReadFile(path string) ([]byte, error) {
 // the file's bytes are the attestation (no text clean-up), its certificate-table entry is written out
 // byte for byte, and neither the local quote provider nor the network is consulted.
 func checkExtractCommand(run *vk.Run) {
+	// PATH together with --eventlog: the event log's local locator comes first, as in the library
+	if dir, derr := os.MkdirTemp("", "vk-c16-cli-"); derr == nil {
+		defer os.RemoveAll(dir)
+		logp := filepath.Join(dir, "log")
+		if err := writeEventLog(logp, []*eventlog.TCGPCREvent2{sp(eventlog.RIMLocationRaw, rawBlob, extract.GCEFirmwareManufacturer)}); err != nil {
+			run.Infra(err)
+			return
+		}
+		for _, class := range []string{"snp_extra", "snp_noextra"} {
+			q, _ := buildQuote(class)
+			rg := &recGetter{}
+			io_ := &cliIO{files: map[string][]byte{"att.bin": q}, out: map[string]*cliW{}}
+			b := &gcmd.Backend{Getter: rg, IO: io_, Provider: &levelProvider{&provider{fail: true}}, MakeEfiVariableReader: func(string) exel.VariableReader { return exel.MakeEfiVarFSReader("/nonexistent-efivarfs") }}
+			root := gcmd.MakeRoot(gcmd.ContextWithBackend(context.Background(), b))
+			root.SetArgs([]string{"extract", "att.bin", "--out", "out.bin", "--eventlog", logp})
+			root.SetOut(io.Discard)
+			root.SetErr(io.Discard)
+			root.SilenceErrors, root.SilenceUsage = true, true
+			xerr := root.Execute()
+			var out []byte
+			if w := io_.out["out.bin"]; w != nil {
+				out = w.b
+			}
+			run.Case("extract-command:eventlog+"+class, true)
+			if xerr != nil || !bytes.Equal(out, rawBlob) || len(rg.urls) > 0 {
+				run.Violation("local-evidence-not-returned:command:eventlog", fmt.Sprintf("`extract att.bin --eventlog LOG` (attestation %s, the log has a raw locator): wrote %s (error %v), requested %v; the event log's locator is local evidence and comes first", class, blobName(out), xerr, rg.urls), nil)
+			}
+		}
+	}
 	for _, class := range []string{"snp_extra", "certtable_extra", "snp_bare_extra_product", "snp_bare_extra"} {
 		q, err := buildQuote(class)
 		if err != nil {
@@ -414,6 +443,64 @@ func checkExtractCommand(run *vk.Run) {
 			if len(rg.urls) > 0 || prov.calls > 0 {
 				run.Violation("network-despite-local:command:"+class, fmt.Sprintf("`extract att.bin` with local evidence in the file (%s) consulted the quote provider (%d calls) / the network (%v)", class, prov.calls, rg.urls), rep)
 			}
+		}
+	}
+}
+
+// writeEventLog writes events as a crypto-agile log file.
+func writeEventLog(path string, evts []*eventlog.TCGPCREvent2) error {
+	f, err := os.Create(path)
+	if err != nil {
+		return err
+	}
+	defer f.Close()
+	return (&eventlog.CryptoAgileLog{Header: eventlog.TCGPCClientPCREvent{}, Events: evts}).Marshal(f)
+}
+
+// checkLargeEventLogs: real event logs are tens of kilobytes long; the locator event may lie anywhere
+// in them, and its fields straddle any buffer boundary a reader may have. For every position of the
+// locator event around 4 KiB and 8 KiB (filler events with SHA-256 digests before it) the local
+// evidence must come back byte for byte without network access.
+func checkLargeEventLogs(run *vk.Run) {
+	dir, err := os.MkdirTemp("", "vk-c16-big-")
+	if err != nil {
+		run.Infra(err)
+		return
+	}
+	defer os.RemoveAll(dir)
+	filler := func(n int) *eventlog.TCGPCREvent2 {
+		return &eventlog.TCGPCREvent2{PCRIndex: 1, EventType: 0x80000001, Digests: eventlog.Uint32SizedArrayT[*eventlog.TaggedDigest]{Array: []*eventlog.TaggedDigest{{AlgID: 0xb, Digest: bytes.Repeat([]byte{0x5a}, 32)}}},
+			EventData: eventlog.TCGEventData{Event: &eventlog.UnknownEvent{Data: bytes.Repeat([]byte{'f'}, n)}}}
+	}
+	step := 1
+	if run.IsQuick() {
+		step = 3
+	}
+	for _, around := range []int{4096, 8192} {
+		for shift := 0; shift < 200; shift += step {
+			// two filler events put the following events' digests and the locator event near the boundary
+			evts := []*eventlog.TCGPCREvent2{filler(around - 300 + shift), filler(40), filler(40), sp(eventlog.RIMLocationRaw, rawBlob, extract.GCEFirmwareManufacturer), filler(40)}
+			p := filepath.Join(dir, "log")
+			if err := writeEventLog(p, evts); err != nil {
+				run.Infra(err)
+				return
+			}
+			rg := &recGetter{}
+			var out []byte
+			var xerr error
+			func() {
+				defer func() {
+					if pn := recover(); pn != nil {
+						xerr = fmt.Errorf("PANIC: %v", pn)
+					}
+				}()
+				out, xerr = extract.Endorsement(&extract.Options{FirmwareManufacturer: extract.GCEFirmwareManufacturer, EventLogLocation: p, Getter: rg, Quote: snpAtt(quoteMeas, nil)})
+			}()
+			if xerr != nil || !bytes.Equal(out, rawBlob) || len(rg.urls) > 0 {
+				run.Violation("local-evidence-not-returned:large-event-log", fmt.Sprintf("an event log of about %d bytes whose SP800-155 event with a raw locator follows %d bytes of earlier events: extraction returned %s (error %v) and requested %v instead of returning the locator's bytes without network access", around+200, around-300+shift+200, blobName(out), xerr, rg.urls), map[string]any{"filler_bytes": around - 300 + shift})
+				return
+			}
+			run.Case(fmt.Sprintf("large-log:%d:%d", around, shift), true)
 		}
 	}
 }
@@ -536,6 +623,7 @@ func RunC16(run *vk.Run) {
 	checkEvents(run)
 	run.Exhaustive = true
 	checkExtractCommand(run)
+	checkLargeEventLogs(run)
 	run.Rule = "every row of Discovery.tla: 13 event-log shapes x 12 quote formats x 4 providers x 3 getters x forced/unforced (real event-log files, efivarfs directory, quotes, recording provider/getter), and every variable name of up to 4 path components over {plain, .., /, link-out, link-in, missing} resolved by the real EfiVarFSReader on a directory tree with real symbolic links and sentinel files outside the root; plus injectivity / round trip of object names and the round trip of the events the signer emits"
 }
 
